@@ -374,6 +374,55 @@ def norm_harness(ex):
     return {"kind": kind, "rev": bool(rev), "idx": idx}
 
 
+def wildcard_list_harness(ex):
+    """a list trait that comes into being through a WILDCARD declaration (xs_ = List(Int)): the value refines list, and its items
+    event reaches a listener of `<name>_items` - whether the listener was registered before or after the first in-place change"""
+    from traits.api import HasTraits, Int, List, TraitError
+
+    class W(HasTraits):
+        xs_ = List(Int)
+
+    o = W()
+    o.xs_b = [1, 2]
+    events = []
+    early = ex.flag("items_listener_registered_before_the_first_mutation")
+    handler = lambda obj, name, old, new: events.append((name, new.index, list(new.removed), list(new.added)))
+    if early:
+        o.on_trait_change(handler, "xs_b_items")
+    op = ex.choice("op", 3)
+    before = list(o.xs_b)
+    exc = None
+    try:
+        if op == 0:
+            o.xs_b.append(4)
+        elif op == 1:
+            o.xs_b[0] = 7
+        else:
+            del o.xs_b[0]
+    except Exception as e:
+        exc = type(e).__name__
+    ref = list(before)
+    [lambda: ref.append(4), lambda: ref.__setitem__(0, 7), lambda: ref.__delitem__(0)][op]()
+    ex.check(exc is None, "a valid operation on a wildcard-declared list raises nothing")
+    if exc is not None:
+        ex.check(list(o.xs_b) == before, "failing operation changes nothing")
+    else:
+        ex.check(list(o.xs_b) == ref, "contents equal the built-in list's after the same operation")
+        if early:
+            ex.check(len(events) == 1 and events[0][0] == "xs_b_items", "exactly one items event reaches the listener")
+    if not early:
+        o.on_trait_change(handler, "xs_b_items")
+        o.xs_b.append(9)
+        ex.check(len(events) == 1 and events[0][3] == [9], "a listener registered after the first mutation hears the next one")
+    try:
+        o.xs_b.append("x")
+        rej = False
+    except TraitError:
+        rej = True
+    ex.check(rej, "the wildcard's item type is enforced")
+    return {"early": early}
+
+
 def obligations(tier, build):
     obs = []
     N = 4 if tier == "quick" else 6
@@ -482,6 +531,9 @@ def obligations(tier, build):
                           bounds={"list length n": "unbounded Int >= 0", "start, stop": "unbounded Int or None",
                                   "step": "-8..8 or None (constant divisor in the count closed form)"},
                           leverage="all of start/stop/length", max_paths=60000, **common))
+    obs.append(Obligation("owned-wildcard", wildcard_list_harness, bounds={"declaration": "xs_ = List(Int); attribute xs_b",
+                                                                          "operations": ["append", "item assignment", "item deletion"]},
+                          leverage="choice feasibility only", stubs=[]))
     import props._owners as owners_
     obs.append(Obligation("detached/list", owners_.detached_harness("list"), bounds={"how the container lost its place": owners_.DETACH_HOWS,
                                                                                       "operations": "3 valid, 2 refused by the built-in"},
